@@ -58,7 +58,8 @@ RULE = ("scenarios are generated load graphs (config %include chains / trees "
         "thorough tier and on the marked small ones in the quick tier). "
         "distinct_nontrivial counts distinct (scenario kind, fault kind, "
         "resource index / origin or code object where the fault landed, "
-        "how the call ended) signatures.")
+        "how the call ended) signatures."
+        ' Separate history families (no fault injection): one SchemaLoader meeting refused documents and being asked again (directly, by <import src>, as a base); one ExtendedConfigLoader with options reading refused texts, then a good one; resources without any URL (StringIO, nameless and placeholder-named streams).')
 LEVEL_TEXT = ("Per scenario the enumeration of single failure points is "
               "exhaustive: every read call of every resource, every "
               "datatype call, every open, every armed line event.  The "
